@@ -81,3 +81,37 @@ Proof.
        if is_nonempty kw then src_update (S fuel) self (SrcMapping kw) [] else self) at 1.
     cbv zeta. rewrite Hne, !src_update_no_kwargs. reflexivity.
 Qed.
+
+(* ---- value-returning methods ---------------------------------------------------------------- *)
+Lemma src_common_is_model s : src_get_common_count s = tc_common s.
+Proof.
+  unfold src_get_common_count, tc_common, tc_items, d_values. rewrite !map_map.
+  induction (tc_map s) as [|[k [c dl]] r IH]; cbn [map sumN fst snd]; [reflexivity|]. rewrite IH. reflexivity.
+Qed.
+
+Lemma src_uncommon_is_model s : src_get_uncommon_count s = tc_uncommon s.
+Proof. unfold src_get_uncommon_count, tc_uncommon. rewrite src_common_is_model. reflexivity. Qed.
+
+Lemma src_len_is_model s : src_len s = tc_len s.
+Proof. reflexivity. Qed.
+
+(* most_common(n): n omitted/None = everything; n <= 0 = nothing; otherwise the first n *)
+Lemma src_most_common_none s : src_most_common s None = tc_most_common s None.
+Proof. reflexivity. Qed.
+
+Lemma src_most_common_nonpos s z : (z <= 0)%Z -> src_most_common s (Some z) = [].
+Proof.
+  intro H. unfold src_most_common. cbn [opt_is_some opt_getZ andb].
+  destruct (z <=? 0)%Z eqn:E; [reflexivity|lia].
+Qed.
+
+Lemma src_most_common_pos s k : (0 < k)%nat ->
+  src_most_common s (Some (Z.of_nat k)) = tc_most_common s (Some k).
+Proof.
+  intro H. unfold src_most_common, tc_most_common. cbn [opt_is_some opt_getZ andb negb orb].
+  destruct (Z.of_nat k <=? 0)%Z eqn:E; [lia|].
+  cbv zeta. cbn [orb negb]. unfold zlen.
+  destruct (Z.of_nat k >=? Z.of_nat (length (sort_desc (tc_items s))))%Z eqn:G.
+  - symmetry. apply firstn_all2. lia.
+  - rewrite Nat2Z.id. reflexivity.
+Qed.
